@@ -26,7 +26,7 @@ def run(ctx):
         raw = ci.attrs.get("_match")
         if isinstance(raw, FuncInfo):
             n += 1
-            ok = raw.kind == "property" and ("cached_property" in raw.decorators or "property" in raw.decorators)
+            ok = raw.kind == "property" and ("cached_property" in raw.decorators or "property" in raw.decorators or bool(getattr(raw, "descriptor_kinds", None)))
             r.ob("C06.per-instance-match", raw.qualname, ok, "_match must be an instance-level (cached) property, decorators: %s" % raw.decorators, raw.where())
             stores = [x for x in ast.walk(raw.node) if isinstance(x, ast.Assign) and any(isinstance(t, ast.Attribute) for t in x.targets)]
             r.ob("C06.per-instance-match", raw.qualname + "#stores", not stores, "_match stores state besides its own cached value", raw.where())
